@@ -197,6 +197,11 @@ class CatalogReplayer:
 
     def operands(self, case, dtype, rg):
         sg = self.sg
+        if isinstance(case.get("a"), dict) and case["a"].get("alias"):
+            # one tensor object passed for every operand (x op x)
+            arr = qarr(case["X"][0], case["shapes"][0], dtype)
+            t = sg.Tensor(arr, requires_grad=bool(any(rg)))
+            return [t] * len(case["shapes"])
         T = []
         for k, (shape, vals) in enumerate(zip(case["shapes"], case["X"])):
             arr = qarr(vals, shape, dtype)
@@ -305,7 +310,8 @@ class CatalogReplayer:
         op = case["op"]
         K = len(case["shapes"])
         gdtypes = [dtype] + ([np.dtype(np.float64) if dtype == np.float32 else np.dtype(np.float32)] if cross_g else [])
-        for rg in case["rgsets"]:
+        alias_case = isinstance(case.get("a"), dict) and case["a"].get("alias")
+        for rg in ([[True] * K] if alias_case else case["rgsets"]):
             for gi, ent in enumerate(case["gs"]):
                 for gdt in (gdtypes if gi == 0 else gdtypes[:1]):
                     T = self.operands(case, dtype, rg)
@@ -333,7 +339,13 @@ class CatalogReplayer:
                     if g.data.tobytes() != gsnap:
                         div.append(("g_mutated", "%s:g-mutated" % op, "backward of %s modified the caller's gradient" % op))
                     want = self.expected_grads(case, ent["g"])
-                    for k in range(K):
+                    alias = isinstance(case.get("a"), dict) and case["a"].get("alias")
+                    if alias and want is not None:
+                        tot = want[0]
+                        for w_ in want[1:]:
+                            tot = tot + w_
+                        want = [tot] * K          # the shared tensor receives the sum over the operand positions
+                    for k in (range(1) if alias else range(K)):
                         t = T[k]
                         if not rg[k]:
                             if t.grad is not None:
